@@ -830,7 +830,11 @@ compFileFront(EmitInfo finfo, Stab stab, FILE *fin, int *plno)
 
 		fintGetInitCompTime();
 
-		if (!compIsMoreAfterInclude(finfo)) { inclFree(sll); return 0; }
+		if (!compIsMoreAfterInclude(finfo)) {
+			if (fintMode == FINT_LOOP) scopeBindSkipStep(stab);
+			inclFree(sll);
+			return 0;
+		}
 
 		tl   = compPhaseScan   (finfo, sll);
 		tl   = compPhaseSysCmd (finfo, tl);
